@@ -108,6 +108,14 @@ def cases(tier, rng):
             ops += ["send @%s;746f2d%02x" % (c, ord(c))] + ["wire " + x for x in cs]
         out.append("e%d sock ROUTER / %s" % (k, " / ".join(ops)))
         k += 1
+    # back-pressure on the routed connection (the writer answers Pending / accepts a few bytes per call): when send returns
+    # Ok the whole message, minus its first frame, is on that connection
+    for plan in ("p", "p,p,w1", "w1,p,w2,p", "w3,p,p,p,w1,p", "p,w200,p"):
+        for size in (1, 300, 70000):
+            ops = ["attach a DEALER", "attach b DEALER", "wplan a " + plan, "send @a;%s;%s" % (W.tok(b"h"), W.tok(b"x" * size)), "wire a", "wire b",
+                   "send @b;6f6b", "wire a", "wire b"]
+            out.append("b%d sock ROUTER / %s" % (k, " / ".join(ops)))
+            k += 1
     # identities "just ahead" of the last generated one (what a counter-like generator would hand out next) announced by
     # some peers, then peers that announce none: a generated identity must never collide with one in use
     for pt in ("DEALER", "REQ"):
@@ -127,7 +135,7 @@ def cases(tier, rng):
 
 
 def compare_filter(line):
-    return not line.startswith(("j", "n"))      # the model assumes distinct identities
+    return not line.startswith(("j", "n", "b"))      # the model assumes distinct identities and writers that accept everything
 
 
 def norm_impl(o, line):
